@@ -133,7 +133,7 @@ func gen(t *rapid.T, protos []string, maxN int) (Case, bool) {
 	if (p == proto.CMPPresign || p == proto.CMPPresignFull || p == proto.CMPPresignOnline) && rapid.IntRange(0, 3).Draw(t, "stateLevel") == 0 {
 		devs := advrun.Deviations
 		if p == proto.CMPPresignOnline {
-			devs = []string{"sigma-share"}
+			devs = []string{"sigma-share", "sigma-neg"}
 		} else if p == proto.CMPPresign {
 			devs = devs[:5]
 		}
